@@ -35,7 +35,10 @@ RULE = ("streams: `loop` = NoisySamplingSimulator._noisy_sampling run on every (
         "count <= min, 0 when a limit is 0, every sample has m-#heralds modes, passes the post-selection and holds "
         ">= filter photons; `gof` = 20000 samples per configuration against the model's exact conditional "
         "distribution (fid 900, chi-square with pooling, level 1e-9) + performances within a binomial bound, also "
-        "BSDistribution.sample, Clifford2017Backend.samples and one-at-a-time sample(); `seed` = two runs after "
+        "BSDistribution.sample, Clifford2017Backend.samples and one-at-a-time sample(); with BasicState + NoiseModel inputs (source path) AND custom SVDistribution inputs over all modes (distribution "
+        "path: 1-5 members, vacuum member, distinguishability tags); `point-inputs` = one- and two-member SVDistributions "
+        "(vacuum included) through a mode permutation with a satisfied herald: deterministic outcomes, every member drawn; "
+        "`seed` = two runs after "
         "pcvl.random_seed(s) agree exactly on source emission, detector outcomes, BSDistribution.sample, "
         "random_unitary, one-at-a-time sample(), probs_to_sample_count; `counts` = probs_to_sample_count with "
         "recorded random draws against the extracted rounding+repair model (incl. tiny probabilities, counts 0/1, "
@@ -114,7 +117,7 @@ def det_build(d):
 
 def rand_case(r, mmax=4, allow_dets=True):
     m = r.rint(2, mmax)
-    c = rand_circ(r, m, r.chance(3, 4))
+    c = rand_circ(r, m, r.chance(7, 8))
     nh = r.rint(0, min(2, m - 1))
     hmodes = sorted(r.shuffle(range(m))[:nh])
     heralds = {h: r.rint(0, 1) for h in hmodes}
@@ -135,6 +138,8 @@ def rand_case(r, mmax=4, allow_dets=True):
                      indistinguishability=r.choice([1.0, 0.92, 0.75]), transmittance=r.choice([1.0, 0.8, 0.5]))
         if noise["g2"] > 0 and n_tot > 2:
             noise["g2"] = 0.0
+        if n_tot > 3:        # keeps the exact mixture small (4 partially distinguishable photons = 72 inputs x 4 groups)
+            noise["indistinguishability"] = 1.0
         if all(noise[k] == v for k, v in dict(brightness=1.0, g2=0.0, indistinguishability=1.0, transmittance=1.0).items()):
             noise = None
     dets = [None] * m
@@ -154,13 +159,49 @@ def rand_case(r, mmax=4, allow_dets=True):
             dets[0] = ("thr",)
         if all(dets):
             dets[-1] = None
+    svd = None
+    if r.chance(2, 5):
+        # custom mixed input over ALL modes (Processor.with_input(SVDistribution)): the distribution path of the sampler.
+        # Members: Fock states with at most 3 photons, possibly the vacuum, possibly with distinguishability tags;
+        # weights k/sum with k in 1..5, so none is below the sampler's trimming threshold max_p / N.
+        svd, seen = [], set()
+        for _ in range(r.rint(1, 4)):
+            st = [0] * m
+            for _ in range(r.choice([0, 1, 1, 2, 2, 3])):
+                st[r.below(m)] += 1
+            tags = [[r.below(2) for _ in range(k)] for k in st] if r.chance(1, 3) else None
+            if sum(st) == 0:
+                tags = None
+            key = svd_state_str(st, tags)          # the state as the library will key it
+            if key not in seen:
+                seen.add(key)
+                svd.append([st, tags, r.rint(1, 5)])
+        if r.chance(1, 2) and not any(sum(e[0]) == 0 for e in svd):
+            svd.append([[0] * m, None, r.rint(1, 5)])
+        nmax = max(sum(e[0]) for e in svd)
+        flt = r.choice([0, 0, r.rint(0, max(nmax - sum(heralds.values()), 0))])
+        noise = None
     return dict(circ=c, m=m, heralds=heralds, free=free, inp=inp, flt=flt, ps_tree=ps_tree, ps_str=ps_str,
-                noise=noise, dets=dets, det_kind=kind)
+                noise=noise, dets=dets, det_kind=kind, svd=svd)
+
+
+def svd_state_str(st, tags):
+    if tags is None:
+        return "|" + ",".join(str(k) for k in st) + ">"
+    return "|" + ",".join("".join("{_:%d}" % t for t in tg) if tg else "0" for tg in tags) + ">"
+
+
+def build_svd(svd):
+    import perceval as pcvl
+    tot = sum(w for _, _, w in svd)
+    return pcvl.SVDistribution({pcvl.StateVector(pcvl.BasicState(svd_state_str(st, tags))): w / tot for st, tags, w in svd})
 
 
 def describe(cs):
     return {"circuit": cs["circ"].describe(), "heralds": {str(k): v for k, v in cs["heralds"].items()},
-            "input(non-herald modes)": cs["inp"], "filter": cs["flt"],
+            "input(non-herald modes)": cs["inp"] if not cs.get("svd") else None,
+            "input(SVDistribution, all modes)": [[svd_state_str(st, tags), w] for st, tags, w in cs["svd"]] if cs.get("svd") else None,
+            "filter": cs["flt"],
             "postselect(circuit modes)": show_ps(remap_ps(cs["ps_tree"], cs["free"])) if cs["ps_str"] else None,
             "noise": cs["noise"], "detectors": [list(d) if d else None for d in cs["dets"]]}
 
@@ -177,8 +218,27 @@ def build_proc(cs):
         if d is not None:
             p.add(j, det_build(d))
     p.min_detected_photons_filter(cs["flt"])
-    p.with_input(pcvl.BasicState(cs["inp"]))
+    if cs.get("svd"):
+        p.with_input(build_svd(cs["svd"]))
+    else:
+        p.with_input(pcvl.BasicState(cs["inp"]))
     return p
+
+
+def model_cost(cs, mix):
+    """rough size of the exact computation: number of (merged outcome, reading) terms of the un-merged shot law"""
+    det = {"none": 1, "pnr": 1, "thr": 1, "partial": 2, "mixed": 3, "ppnr": 4}[cs["det_kind"]]
+    tot = 0
+    for _, groups in mix:
+        t = 1
+        for g in groups:
+            t *= math.comb(cs["m"] + sum(g) - 1, sum(g))
+        tot += t * det ** max(sum(sum(g) for g in groups) - 1, 0)
+    return tot
+
+
+def model_cost_req(rq):
+    return sum(math.prod(math.comb(rq[1][0] + sum(g) - 1, sum(g)) for g in pq[1]) for pq in rq[1][2])
 
 
 def model_req(cs, mix, F):
@@ -211,6 +271,22 @@ def chi_square(expected: dict, observed: Counter, n: int):
     df = max(cells - 1, 0)
     p = float(chi2.sf(stat, df)) if df > 0 else 1.0
     return p, stat, df, impossible
+
+
+class Watchdog:
+    """progress callback (the user's side of the API): counts the iterations of the sampling loop and asks for
+    cancellation beyond a budget far above anything a correct sampler needs, so that a sampler that never accepts
+    is reported instead of hanging the run"""
+
+    def __init__(self, budget):
+        self.budget, self.calls, self.tripped = budget, 0, False
+
+    def __call__(self, progress, message=None):
+        self.calls += 1
+        if self.calls > self.budget:
+            self.tripped = True
+            return {"cancel_requested": True}
+        return None
 
 
 def legal_sample(cs, s):
@@ -478,13 +554,13 @@ def stream_simulator(ctx):
 
 
 # ------------------------------------------------------------------ stream: bounds and legality on the real processor
-def run_samples(p, ms, msh):
+def run_samples(p, ms, msh, wd=None):
     """Processor.samples for an integer max_samples, Sampler for None."""
     from perceval.algorithm import Sampler
     if ms is None:       # the job layer swallows exceptions (C18's subject): call the wrapper the job would call
         smp = Sampler(p, max_shots_per_call=msh) if msh is not None else Sampler(p)
-        return smp._samples_wrapper(None)
-    return p.samples(ms, msh)
+        return smp._samples_wrapper(None, wd)
+    return p.samples(ms, msh, wd)
 
 
 def stream_bounds(ctx, cases_with_accept):
@@ -505,9 +581,10 @@ def stream_bounds(ctx, cases_with_accept):
                             ctx.fail(f"bounds-exception-{type(e).__name__}", f"raised {type(e).__name__}: {e}", desc)
                     continue
                 case = {**desc, "max_samples": ms, "max_shots": msh}
+                wd = Watchdog(50000)       # <= 5 samples at acceptance >= 0.02: ~250 iterations expected
                 try:
                     p = build_proc(cs)
-                    res = run_samples(p, ms, msh)
+                    res = run_samples(p, ms, msh, wd)
                 except Exception as e:
                     sig = f"bounds-exception-{type(e).__name__}"
                     if isinstance(e, AttributeError) and "detect" in str(e) and any(d is None for d in cs["dets"]) and any(cs["dets"]):
@@ -516,12 +593,16 @@ def stream_bounds(ctx, cases_with_accept):
                     continue
                 got = list(res["results"])
                 n_eval += 1
+                if wd.tripped:
+                    ctx.fail("samples-never-accepting", f"the sampling loop ran {wd.calls} iterations without reaching {ms} samples "
+                             f"although a shot is accepted with probability {accept:.3f}", case, ms, len(got))
+                    continue
                 lim = min(x for x in (ms, msh) if x is not None)
                 ctx.case(["bounds", case], len(got) == lim and lim > 0, None)
                 ctx.count("bounds.returned." + ("limit" if len(got) == lim else "below"))
                 if len(got) > lim:
                     noisy_filter = False
-                    if cs["flt"] >= 2 and msh is not None and len(got) == msh + 1 and (ms is None or ms > msh):
+                    if cs["flt"] >= 2 and msh is not None and len(got) == msh + 1 and (ms is None or ms > msh) and not cs.get("svd"):
                         _, ph_, zpp_ = p._source._compute_prob_table(p.input_state.n, cs["flt"])
                         noisy_filter = zpp_ < 1 and math.ceil(msh * ph_ / (1 - zpp_)) == msh + 1
                     ctx.fail("bounds-max_shots-exceeded-by-float-rescaling" if noisy_filter else "bounds-exceeded",
@@ -548,7 +629,8 @@ def gof_processor(ctx, cs, out_spec, out_impl, N, tag):
     try:
         p = build_proc(cs)
         pcvl.random_seed(ctx.seed * 1000003 + tag)
-        res = p.samples(N)
+        wd = Watchdog(int(4 * N / max(e_phys * e_log, 1e-3)) + 100000)
+        res = p.samples(N, None, wd)
     except Exception as e:
         sig = f"gof-exception-{type(e).__name__}"
         if isinstance(e, AttributeError) and "detect" in str(e) and any(d is None for d in cs["dets"]) and any(cs["dets"]):
@@ -559,15 +641,19 @@ def gof_processor(ctx, cs, out_spec, out_impl, N, tag):
     n = sum(obs.values())
     pv, stat, df, impossible = chi_square(e_dist, obs, n)
     case = {**desc, "N": n, "seed": ctx.seed * 1000003 + tag, "chi2": stat, "df": df, "p": pv}
-    nontriv = df >= 1 and (cs["noise"] is not None or herald_photons > 0 or any(cs["dets"]) or cs["ps_str"] is not None)
+    nontriv = df >= 1 and (cs["noise"] is not None or herald_photons > 0 or any(cs["dets"]) or cs["ps_str"] is not None
+                           or bool(cs.get("svd")))
     ctx.case(["gof", desc], nontriv, once("gof", nontriv, {**case, "expected_top": sorted(e_dist.items(), key=lambda kv: -kv[1])[:4],
                                                           "observed_top": obs.most_common(4), "performances(model)": [e_phys, e_log],
                                                           "performances(samples)": [float(res["physical_perf"]), float(res["logical_perf"])]}))
     ctx.count("gof.det." + cs["det_kind"])
     ctx.count("gof.noise." + ("on" if cs["noise"] else "off"))
+    ctx.count("gof.input." + ("SVDistribution" + ("+vacuum" if any(sum(e[0]) == 0 for e in cs["svd"]) else "") if cs.get("svd") else "BasicState"))
     ctx.count("gof.heralds.%d" % len(cs["heralds"]))
     bad = None
-    if n != N:
+    if wd.tripped:
+        bad = ("samples-never-accepting", f"{wd.calls} iterations gave {n} of {N} samples; the model's acceptance probability is {e_phys * e_log:.4f}")
+    elif n != N:
         bad = ("gof-count", f"{n} samples instead of {N}")
     elif impossible:
         bad = ("gof-impossible-outcome", f"outcome of model probability 0 sampled: {list(impossible[0])}")
@@ -873,6 +959,85 @@ def stream_counts(ctx):
     return reqs[:1]
 
 
+# ------------------------------------------------------------------ stream: point inputs (deterministic outcomes)
+def stream_point_inputs(ctx):
+    """A one-member SVDistribution (any Fock state, the vacuum included) through a mode permutation, one satisfied herald
+    (so the loop path is taken, not the fast path), filter <= n: every shot is accepted and every sample is the permuted
+    input without the heralded mode; performances 1 and 1. Also two-member mixtures whose members map to distinct
+    outputs: the set of returned states is included in the two images, and a member of weight >= 1/2 must show up in
+    64 samples (probability of a false alarm 2^-64)."""
+    import perceval as pcvl
+    rng = ctx.rng.fork("point")
+    BS_ = pcvl.BasicState
+    n = ctx.n(40, 400)
+    for i in range(n):
+        r = rng.fork(i)
+        m = r.rint(2, 4)
+        perm = r.shuffle(range(m))
+        members = []
+        for _ in range(r.choice([1, 1, 2])):
+            st = [0] * m
+            for _ in range(r.choice([0, 0, 1, 2, 3])):
+                st[r.below(m)] += 1
+            if st not in members:
+                members.append(st)
+        if len(members) == 2 and not r.chance(1, 2):
+            members[1] = [0] * m if members[0] != [0] * m else members[1]
+        if len(members) == 2 and members[0] == members[1]:
+            members = members[:1]
+        images = []
+        for st in members:
+            out = [0] * m
+            for j, k in enumerate(st):
+                out[perm[j]] += k
+            images.append(out)
+        ok_modes = [j for j in range(m) if images[0][j] <= 1]       # add_herald accepts 0 or 1 only
+        if not ok_modes:
+            ctx.count("point.skipped-no-herald-mode")
+            continue
+        hm = r.choice(ok_modes)
+        usable = [k for k, im in enumerate(images) if im[hm] == images[0][hm]]      # members satisfying the herald
+        hv = images[0][hm]
+        flt = r.rint(0, max(min(sum(images[k]) for k in usable) - hv, 0))
+        N = 64
+        case = {"circuit": f"Circuit({m}) // PERM({perm})", "input(SVDistribution)": [[st, 1] for st in members],
+                "herald": {str(hm): hv}, "filter": flt, "call": f"samples({N})"}
+        try:
+            p = pcvl.Processor("CliffordClifford2017", pcvl.Circuit(m) // pcvl.PERM(perm))
+            p.add_herald(hm, hv)
+            p.min_detected_photons_filter(flt)
+            p.with_input(pcvl.SVDistribution({pcvl.StateVector(BS_(st)): 1 / len(members) for st in members}))
+            wd = Watchdog(100 * N)
+            res = p.samples(N, None, wd)
+        except Exception as e:
+            ctx.case(["point", case], True, None)
+            ctx.fail(f"samples-point-input-{type(e).__name__}", f"samples raised {type(e).__name__}: {e}", case)
+            continue
+        got = Counter(tuple(x) for x in res["results"])
+        allowed = {tuple(v for j, v in enumerate(images[k]) if j != hm) for k in usable}
+        vac = any(sum(st) == 0 for st in members)
+        ctx.case(["point", case], True, once("point", vac, {**case, "returned": sorted((list(k), v) for k, v in got.items())}))
+        ctx.count("point.members.%d" % len(members))
+        ctx.count("point.vacuum-member" if vac else "point.no-vacuum")
+        case = {**case, "returned": sorted((list(k), v) for k, v in got.items())}
+        if wd.tripped:
+            ctx.fail("samples-point-input-member-never-drawn" + ("-vacuum" if vac else ""),
+                     f"{wd.calls} iterations gave {sum(got.values())} of {N} samples although a member of weight >= 1/2 is always accepted",
+                     case, N, sum(got.values()))
+        elif sum(got.values()) != N:
+            ctx.fail("samples-point-input-count", f"{sum(got.values())} samples instead of {N} although every shot is accepted", case, N, sum(got.values()))
+        elif not set(got) <= allowed:
+            ctx.fail("samples-point-input-outcome", "a sample is not the permuted input", case, sorted(allowed), sorted(got))
+        elif set(got) != allowed:
+            missing = sorted(allowed - set(got))
+            ctx.fail("samples-point-input-member-never-drawn" + ("-vacuum" if any(sum(k) == 0 for k in missing) and vac else ""),
+                     f"a member of weight 1/2 never appears in {N} samples: {missing}", case, sorted(allowed), sorted(got))
+        elif len(usable) == len(members) and (abs(res["physical_perf"] - 1) > 1e-12 or abs(res["logical_perf"] - 1) > 1e-12):
+            ctx.fail("samples-point-input-perf", "performances differ from 1 although every shot is accepted", case, [1, 1],
+                     [res["physical_perf"], res["logical_perf"]])
+    ctx.streams["point-inputs"] = n
+
+
 # ------------------------------------------------------------------ witnesses of the design round
 def witness_checks(ctx):
     """Regression guards: the witnesses of the three defects repaired in /repo (5caa1a68, 96b1fd83, 869f2c44) —
@@ -944,9 +1109,11 @@ def run(ctx):
     stream_seed(ctx)
     ctx.log("seed stream done")
     witness_checks(ctx)
+    stream_point_inputs(ctx)
+    ctx.log("point-input stream done")
 
     # random processors: the model gives acceptance probabilities (to avoid unbounded loops) and exact tables
-    n_b, n_g = ctx.n(5, 40), ctx.n(10, 150)
+    n_b, n_g = ctx.n(5, 40), ctx.n(22, 200)
     cases = [rand_case(rng.fork(("case", i))) for i in range(n_b + n_g)]
     reqs, pend = [], []
     for cs in cases:
@@ -958,12 +1125,30 @@ def run(ctx):
             continue
         hp = sum(cs["heralds"].values())
         reqs.append(model_req(cs, mix, cs["flt"] + hp))
-        reqs.append(model_req(cs, mix, cs["flt"]))
-        pend.append((cs, mix))
-    outs = ctx.model.run(reqs)
+        if hp:
+            reqs.append(model_req(cs, mix, cs["flt"]))      # pre-repair reading of the filter (regression diagnosis)
+        pend.append((cs, mix, len(reqs) - (2 if hp else 1), len(reqs) - 1))
+    # exact tables, one runner per request and a wall-clock budget each: the cost is dominated by the size of the
+    # rationals (generic unitary blocks), which no a-priori estimate predicts well; a configuration over budget is dropped
+    import subprocess
+    from concurrent.futures import ThreadPoolExecutor
+    budget = 10 if ctx.quick() else 120
+
+    def one(rq):
+        try:
+            return ctx.model.run([rq], timeout=budget, jobs=1)[0]
+        except subprocess.TimeoutExpired:
+            return None
+
+    with ThreadPoolExecutor(8) as ex:
+        outs = list(ex.map(one, reqs))
+    ctx.log(f"model tables done ({len(reqs)} requests, {sum(o is None for o in outs)} over budget)")
     ready = []
-    for k, (cs, mix) in enumerate(pend):
-        o_spec, o_impl = outs[2 * k], outs[2 * k + 1]
+    for cs, mix, i_spec, i_old in pend:
+        o_spec, o_impl = outs[i_spec], outs[i_old]
+        if o_spec is None or o_impl is None:
+            ctx.count("model.table-over-budget")
+            continue
         F = cs["flt"] + sum(cs["heralds"].values())
         pre = [[Fraction(pq[0]), 0] for pq in mix if sum(sum(g) for g in pq[1]) >= F]
         o_spec = list(o_spec) + [pre]
@@ -996,7 +1181,7 @@ def run(ctx):
     ctx.streams["gof"] = done
     ctx.log("gof stream done")
 
-    sample = sample_reqs[:3] + reqs[:1]
+    sample = sample_reqs[:3] + [rq for rq, o in zip(reqs, outs) if o is not None and model_cost_req(rq) < 200][:1]
     a = ctx.model.run(sample, jobs=1)
     b = ctx.model.vm_crosscheck(sample, "c09")
     ctx.count("vm_compute_crosscheck", len(sample))
